@@ -205,7 +205,7 @@ def _finish_request(draws, spec, req, idx, profile, rs, tier):
         base = expected_response(spec, op, World(spec, req.wseed,
                                                  nonfinite=req.nonfinite))
         nf = fs.weighted((4, 3, 2, 1), "n_faults")
-        kinds = ["err", "null", "errx"]
+        kinds = ["err", "null", "errx", "errs"]
         if profile.get("boom", (0, 1))[0] and fs.chance(
                 *profile["boom"], "boom_on"):
             kinds.append("boom")
@@ -265,6 +265,11 @@ def _corrupt_variables(req, rs):
             cands.append((name, None))
         elif base in ("Int", "Stamp", "Color", "Inp"):
             cands.append((name, {"bad": 1}))
+        if t.startswith("["):
+            # a nested container carrying several errors of its own
+            cands.append((name, [None, {"bad": 1}, [], "x"]))
+        if base == "Inp" and not t.startswith("["):
+            cands.append((name, {"a": "x", "b": [1], "c": ["NOPE", 5, None]}))
     if not cands:
         return False
     name, val = cands[rs.below(len(cands), "corrupt_var")]
